@@ -42,7 +42,7 @@ func init() {
 			"(WITH c AS (Qi) Qo(c); Qo((Qi) x); chains c1->c2->outer; a CTE referenced twice through a self-join, through FROM plus an " +
 			"IN-subquery, through a filtering CTE plus a join, or through a filtered FROM plus an aggregating subquery; FROM `c.items` on an array-valued CTE column; a third of the outer stages of every shape, aggregates included, end in LIMIT n [OFFSET m]) that must equal the staged evaluation over materialised intermediate " +
 			"results passed in as plain input, or a subquery form (select-item subquery on the row / on `<-` the enclosing document, also correlated with the outer row through `<-.col`; IN-subquery on the row and on the root, " +
-			"[NOT] EXISTS correlated with the outer row (outer columns by bare name or as `<-.col`) over nested arrays whose elements may lack keys; IN subqueries also with ORDER BY / LIMIT / OFFSET and in the plain one-column form; CTE names that shadow a table of the document) that must equal the standalone execution of the subquery text on that row (EXISTS: the " +
+			"[NOT] EXISTS correlated with the outer row (outer columns by bare name or as `<-.col`) over nested arrays whose elements may lack keys; IN subqueries also with ORDER BY / LIMIT / OFFSET and in the plain one-column form; CTE names that shadow a table of the document; derived tables called like a table of the document while the outer query reads that table through `<-`) that must equal the standalone execution of the subquery text on that row (EXISTS: the " +
 			"reference 'some element satisfies p'). Non-trivial: inner result non-empty and the outer stage filters or projects it.",
 		Assumptions: []string{
 			"outer and nested column names are disjoint in EXISTS; derived tables are always aliased",
@@ -260,7 +260,7 @@ func genOuterQueryCore(t *rapid.T, tb *Table, prefix string, label string) (stri
 func genC07(t *rapid.T) any {
 	doc, sc := genC07Doc(t)
 	c := &C07Case{Doc: doc}
-	c.Form = rapid.SampledFrom([]string{"cte", "derived", "derived", "chain", "twice-join", "twice-insub", "twice-filter-join", "twice-filter-sub", "path", "sel-sub", "sel-sub-root", "sel-sub-root", "in-sub", "in-sub-root", "exists", "exists"}).Draw(t, "form")
+	c.Form = rapid.SampledFrom([]string{"cte", "derived", "derived", "chain", "twice-join", "twice-insub", "twice-filter-join", "twice-filter-sub", "path", "derived-shadow", "sel-sub", "sel-sub-root", "sel-sub-root", "in-sub", "in-sub-root", "exists", "exists"}).Draw(t, "form")
 	switch c.Form {
 	case "cte":
 		qi, sch := genInnerQuery(t, sc.tb, "i1")
@@ -277,6 +277,34 @@ func genC07(t *rapid.T) any {
 		c.Composed = fmt.Sprintf(qo, "("+fmt.Sprintf(qi, "t")+") x")
 		c.Stages = []string{fmt.Sprintf(qi, "t"), fmt.Sprintf(qo, "m1 x")}
 		c.Ordered = ord
+	case "derived-shadow":
+		// the derived table is called like a table of the document (the one it reads, or another one), and the
+		// outer query also reads that table of the enclosing document through `<-`: the alias names the derived
+		// table inside the statement, the document keeps its own table
+		where := ""
+		if rapid.IntRange(0, 3).Draw(t, "haswhere") != 0 {
+			where = " WHERE " + sq.Render(genPred(t, sc.tb, &PredSpec{Core: true}, 0, "w"), nil)
+		}
+		qi := fmt.Sprintf("SELECT %s, %s FROM t%s", sc.k, sc.v, where)
+		if rapid.IntRange(0, 3).Draw(t, "innerlimit") == 0 {
+			qi += fmt.Sprintf(" LIMIT %d", rapid.IntRange(0, 3).Draw(t, "innerlimitn"))
+		}
+		alias := rapid.SampledFrom([]string{"t", "t", "t2"}).Draw(t, "alias")
+		col := map[string]string{"t": sc.k, "t2": sc.t2c}[alias]
+		sub := fmt.Sprintf("SELECT %s FROM `<-%s`", col, alias)
+		switch rapid.IntRange(0, 2).Draw(t, "subform") {
+		case 0:
+			sub += fmt.Sprintf(" WHERE %s %s %s", col, rapid.SampledFrom(cmpOps).Draw(t, "subop"), sq.NumLit(rapid.SampledFrom([]float64{1, 2, 3}).Draw(t, "subc")))
+		case 1:
+			sub = fmt.Sprintf("SELECT COUNT(*) AS n, MAX(%s) AS mx FROM `<-%s`", col, alias)
+		}
+		qo := fmt.Sprintf("SELECT %s.%s AS ok, (%s) AS sb FROM %%s %s", alias, sc.k, sub, alias)
+		if rapid.Bool().Draw(t, "inwhere") {
+			qo = fmt.Sprintf("SELECT %s.%s AS ok, %s.%s AS ov FROM %%s %s WHERE %s.%s IN (SELECT %s FROM `<-%s`)", alias, sc.k, alias, sc.v, alias, alias, sc.k, col, alias)
+		}
+		c.Composed = fmt.Sprintf(qo, "("+qi+")")
+		c.Stages = []string{qi, fmt.Sprintf(qo, "m1")}
+		c.Ordered = true
 	case "chain":
 		qi, sch1 := genInnerQuery(t, sc.tb, "i1")
 		qm, sch2 := genInnerQuery(t, sch1, "i2")
@@ -501,7 +529,7 @@ func checkC07(c *C07Case) Result {
 	}
 	rows, _ := c.Doc["t"].([]any)
 	switch c.Form {
-	case "cte", "derived", "chain", "twice-join", "twice-insub", "twice-filter-join", "twice-filter-sub", "path":
+	case "cte", "derived", "derived-shadow", "chain", "twice-join", "twice-insub", "twice-filter-join", "twice-filter-sub", "path":
 		doc := val.CopyMap(c.Doc)
 		var last Out
 		firstLen := -1
